@@ -21,13 +21,15 @@ import (
 type voteKey struct{ voter, term uint64 }
 
 type ledgers2 struct {
-	votes       map[voteKey]uint64
-	rounds      map[string]uint64 // "leaderNode/leaderInc/term/target" -> last index of the newest completed round
-	transfers   map[*task]*transferRec
-	lastClose   map[[2]int]int64 // (from,to) -> global time a connection between them was last closed or reset
-	infoSeen    map[*nodeInc]*Info
+	votes          map[voteKey]uint64
+	rounds         map[string]uint64 // "leaderNode/leaderInc/term/target" -> last index of the newest completed round
+	transfers      map[*task]*transferRec
+	permitted      map[[2]uint64]bool // (candidate, term) -> that election was started while holding a timeout-now permission
+	reportedFaulty map[[3]uint64]bool // (leader, term, follower): the leader reported ErrFaultyFollower
+	lastClose      map[[2]int]int64   // (from,to) -> global time a connection between them was last closed or reset
+	infoSeen       map[*nodeInc]*Info
 	duringTransfer map[*task]bool // client tasks that reached a leader while it had a transfer in progress
-	monitorRuns int
+	monitorRuns    int
 }
 
 func (l *ledgers) init2() {
@@ -35,6 +37,8 @@ func (l *ledgers) init2() {
 	l.x.rounds = map[string]uint64{}
 	l.x.transfers = map[*task]*transferRec{}
 	l.x.lastClose = map[[2]int]int64{}
+	l.x.permitted = map[[2]uint64]bool{}
+	l.x.reportedFaulty = map[[3]uint64]bool{}
 	l.x.infoSeen = map[*nodeInc]*Info{}
 	l.x.duringTransfer = map[*task]bool{}
 }
@@ -284,6 +288,9 @@ func (l *ledgers) onTimeoutNowExit(ni *nodeInc, result rpcResult) {
 	r := ni.r
 	run.reach("timeout_now_received")
 	ni.obs.lastTimeoutNow = run.sim.Now
+	if result == success {
+		ni.obs.transferPermit = true
+	}
 	if !r.configs.Latest.isVoter(r.nid) {
 		run.reach("timeout_now_at_nonvoter")
 		if result == success || r.state == Candidate {
@@ -446,7 +453,11 @@ func (l *ledgers) onVoteExitStability(ni *nodeInc, req *voteReq, result rpcResul
 	run := l.run
 	o := &ni.obs
 	L := o.heardLeader
-	if req.transfer || L == 0 || req.src == L || o.heardTerm != o.voteTermBefore {
+	// the flag in the request is the sender's claim; the permission is what a leader gave it
+	if req.transfer && !l.x.permitted[[2]uint64{req.src, req.term}] {
+		run.reach("transfer_flag_without_permission")
+	}
+	if (req.transfer && l.x.permitted[[2]uint64{req.src, req.term}]) || L == 0 || req.src == L || o.heardTerm != o.voteTermBefore {
 		return
 	}
 	// less than one minimum election timeout ago on the voter's own clock
@@ -675,6 +686,11 @@ func (run *simRun) shutdownWatch() {
 		}
 		if desc != "" {
 			run.violate("C15", "shutdown_stuck", "shutdown_does_not_finish", "Shutdown did not finish within %v of simulated time:\n%s%s", 300*run.cfg.HB, desc, run.sim.Describe())
+		} else {
+			// only fenced incarnations (crashed earlier, left to unwind) are still busy: a killed
+			// process has no such afterlife, so nothing is concluded from it and the run is complete
+			run.st.Reach["zombie_never_unwound"]++
+			run.finishNow = true
 		}
 		return
 	}
